@@ -128,7 +128,7 @@ def xref_class(e):
     return "other"
 
 
-def dangling_is_outside_model(model, e):
+def dangling_is_outside_model(model, e, ever=None, gene_ops_seen=False):
     """Proves the known mechanism: the listed reaction has no model at all (it is the free
     reaction the metabolite / gene object was taken from)."""
     import re
@@ -143,6 +143,12 @@ def dangling_is_outside_model(model, e):
         return False
     for r in obj.reactions:
         if r.id == m.group(3) and getattr(r, "_model", None) is not model:
+            if ever is not None and id(r) in ever:
+                # the reaction was part of this model earlier in the history: an object of the model that keeps listing
+                # it after it left is not the recorded mechanism (objects taken from reactions that never were in the
+                # model) - unless it is the stale leftover of a renaming that C03 records (gene not named by the rule)
+                if m.group(1) == "metabolite" or (observe._live(obj, r) and not gene_ops_seen):
+                    return False
             return True
     return False
 
@@ -160,7 +166,8 @@ def run_case(base, case, acc):
     allowed = ops.names()
     in_ctx = ops.names(with_tags=("rev",))
     ident = {"base": base, "case": case, "start": kind}
-    st = {"ref": refmodel.abstract(model), "before": observe.content(model), "stack": [], "ok": True}
+    # reactions that have been members of the model at some step (objects kept alive so that ids are not reused)
+    st = {"ref": refmodel.abstract(model), "before": observe.content(model), "stack": [], "ok": True, "ever": {id(r) for r in model.reactions}, "keep": list(model.reactions), "kept_ids": {id(r) for r in model.reactions}}
     n_steps = rng.randint(1, 25)
 
     def monitor(H, k, name, desc, exc, trace):
@@ -171,6 +178,12 @@ def run_case(base, case, acc):
         shape = h([name, sorted((desc or {}).keys()) if isinstance(desc, dict) else None, (desc or {}).get("form") if isinstance(desc, dict) else None, (desc or {}).get("combine") if isinstance(desc, dict) else None])
         w = lambda **kw: dict(ident, step=len(trace), trace=trace[-10:], **kw)
         # ---------------- cross references, always
+        if name in ("manipulation.rename_genes", "manipulation.remove_genes"):
+            # C03's recorded mechanism needs one of these in the history: a renamed / removed gene object that a
+            # reaction outside the model still carries; when the names coincide again the association looks alive
+            st["gene_ops_seen"] = True
+        st["ever"].update(id(r) for r in model.reactions)
+        st["keep"].extend(r for r in model.reactions if id(r) not in st["kept_ids"] and not st["kept_ids"].add(id(r)))
         acc.count("xref_checks")
         try:
             xe = observe.xref_errors(model)
@@ -182,7 +195,7 @@ def run_case(base, case, acc):
             st["ok"] = False
             cls = xref_class(xe[0])
             key = f"C02/xref/{cls}/{name}"
-            if cls == "lists-reaction-that-is-not-in-the-model" and all(dangling_is_outside_model(model, e) for e in xe if "dangling" in e) and all("dangling" in e for e in xe):
+            if cls == "lists-reaction-that-is-not-in-the-model" and all(dangling_is_outside_model(model, e, st["ever"], st.get("gene_ops_seen", False)) for e in xe if "dangling" in e) and all("dangling" in e for e in xe):
                 key = "C02/xref/metabolite-or-gene-lists-a-reaction-outside-the-model"
             if st.get("exit_failed_known"):
                 # the exit itself (or an earlier, inner one) raised (recorded optlang mechanism of C01/C03): the undo
